@@ -6,8 +6,9 @@ INO = "ino"
 
 PLANS = {
     "C01": dict(engine=INO, mc=["MC_Events"],
-                quick=[("rand", 300, ""), ("burst", 24, "ks=2+3+17+240+2049"), ("withops", 60, ""), ("moves", 40, "")],
-                thorough=[("rand", 6000, ""), ("rand", 1500, "maxops=40"), ("burst", 200, "ks=2+3+17+240+2049+5000"), ("withops", 1500, ""), ("moves", 800, ""), ("overflow", 1, "extra=4000")]),
+                quick=[("rand", 300, ""), ("burst", 24, "ks=2+3+17+240+2049"), ("withops", 60, ""), ("moves", 40, ""), ("lag", 120, ""), ("cwd", 30, ""), ("endwatch", 60, "")],
+                thorough=[("rand", 6000, ""), ("rand", 1500, "maxops=40"), ("burst", 200, "ks=2+3+17+240+2049+5000"), ("withops", 1500, ""), ("moves", 800, ""), ("overflow", 1, "extra=4000"),
+                          ("lag", 3000, ""), ("cwd", 400, ""), ("endwatch", 1500, "")]),
     "C02": dict(engine=INO, mc=["MC_Events"],
                 quick=[("rand", 300, ""), ("lag", 120, ""), ("wsrand", 100, ""), ("withops", 40, ""), ("repoint", 60, ""), ("endwatch", 80, "")],
                 thorough=[("rand", 5000, ""), ("lag", 2000, ""), ("wsrand", 2000, ""), ("withops", 800, ""), ("repoint", 800, ""), ("endwatch", 1500, "")]),
@@ -30,7 +31,7 @@ PLANS = {
                 quick=[("lag", 200, ""), ("endwatch", 200, ""), ("rand", 150, ""), ("wsrand", 100, ""), ("repoint", 80, "")],
                 thorough=[("lag", 4000, ""), ("endwatch", 4000, ""), ("rand", 3000, ""), ("wsrand", 2000, ""), ("repoint", 1000, "")]),
     "C10": dict(engine=INO, mc=["MC_Sched"],
-                quick=[("lag", 200, ""), ("rand", 100, ""), ("overflow", 1, "extra=6"), ("ovflate", 2, ""), ("ovfstall", 1, "")],
+                quick=[("lag", 200, ""), ("rand", 100, ""), ("overflow", 1, "extra=6"), ("ovflate", 2, ""), ("ovfstall", 1, ""), ("readfault", 30, "")],
                 thorough=[("lag", 5000, ""), ("rand", 3000, ""), ("overflow", 3, "extra=1+6+4000"), ("ovflate", 12, ""), ("ovfstall", 6, "")]),
     "C11": dict(engine=INO, mc=["MC_Events"],
                 quick=[("moves", 300, ""), ("parmoves", 60, ""), ("multix", 20, "")],
@@ -38,9 +39,9 @@ PLANS = {
     "C12": dict(engine=INO, mc=["MC_WatchSet"],
                 quick=[("wsexh", 700, "k=3"), ("cycle", 6, "n=150"), ("wsrand", 150, ""), ("repoint", 60, ""), ("endwatch", 80, ""), ("tlcws", 600, "k=3")],
                 thorough=[("wsexh", 2744, "k=3"), ("wsexh", 12000, "k=4"), ("cycle", 50, "n=1000"), ("wsrand", 5000, ""), ("repoint", 600, ""), ("endwatch", 2000, "")]),
-    "C13": dict(engine=INO, mc=["MC_Sched"],
-                quick=[("close", 200, ""), ("newclose", 3, "n=300"), ("lag", 60, ""), ("ovfstall", 1, "mode=close")],
-                thorough=[("close", 5000, ""), ("newclose", 10, "n=1000"), ("lag", 1500, "")]),
+    "C13": dict(engine=INO, mc=["MC_Sched"], also_lin=True,
+                quick=[("close", 200, ""), ("newclose", 3, "n=300"), ("lag", 60, ""), ("ovfstall", 1, "mode=close"), ("readfault", 40, "")],
+                thorough=[("close", 5000, ""), ("newclose", 10, "n=1000"), ("lag", 1500, ""), ("readfault", 600, ""), ("ovfstall", 6, "mode=close")]),
     "C14": dict(engine=INO, mc=["MC_Events"],
                 quick=[("multi", 100, ""), ("multix", 60, ""), ("absorb", 40, "")],
                 thorough=[("multi", 2000, ""), ("multix", 1500, ""), ("absorb", 400, "")]),
